@@ -611,3 +611,82 @@ class C20Events(EnumCheck):
 
     def nontrivial(self, c):
         return len(c[0]) > 1
+
+
+@register("c20_procstats")
+class C20ProcStats(EnumCheck):
+    """Per-process statistics: two job processes with different lifetimes (every presence mask over <=4
+    monitor ticks) x sample values, through the real aggregator with `_get_process_stats` as the seam."""
+
+    def cases(self):
+        out = []
+        for n in range(1, 5):
+            for mask2 in itertools.product((0, 1), repeat=n):
+                if not any(mask2):
+                    continue
+                for v1 in itertools.product((1, 5), repeat=n):
+                    for v2 in itertools.product((2, 0) if n > 2 else (2, 0, 7), repeat=sum(mask2)):
+                        out.append((n, mask2, v1, v2))
+        return out
+
+    def begin(self):
+        self.dir = scratch("c20p")
+        os.makedirs(os.path.join(self.dir, "stats"), exist_ok=True)
+        from jade.resource_monitor import ResourceMonitorAggregator
+
+        class Scripted(ResourceMonitorAggregator):
+            ticks = None
+
+            def _get_stats(self_inner):
+                return {"CPU": {"cpu_percent": 1.0}}
+
+            def _get_process_stats(self_inner, pids):
+                return Scripted.ticks.pop(0)
+
+        self.cls = Scripted
+
+    def evaluate(self, case):
+        from jade.models.submitter_params import ResourceMonitorStats
+
+        n, mask2, v1, v2 = case
+        v2 = list(v2)
+        ticks = []
+        samples = {"job1": [], "job2": []}
+        for t in range(n):
+            d = {"job1": {"cpu_percent": float(v1[t]), "rss": float(v1[t]) * 10}}
+            samples["job1"].append(float(v1[t]))
+            if mask2[t]:
+                x = float(v2.pop(0))
+                d["job2"] = {"cpu_percent": x, "rss": x * 10}
+                samples["job2"].append(x)
+            ticks.append(d)
+        self.cls.ticks = ticks
+        agg = self.cls("batch_1_0", ResourceMonitorStats(cpu=True, memory=False, disk=False, network=False, process=True))
+        for _ in range(n):
+            agg.update_resource_stats(ids={"job1": 1, "job2": 2})
+        agg.finalize(self.dir)
+        with open(os.path.join(self.dir, "stats", "batch_1_0_resource_stats.json")) as f:
+            data = json.load(f)
+        res = []
+        by = {d.get("name"): d for d in data if d.get("type") == "Process"}
+        for name, xs in samples.items():
+            d = by.get(name)
+            if d is None:
+                res.append(V("procstat-missing", f"no per-process summary for {name} in {data}"))
+                continue
+            if d.get("samples") != len(xs):
+                res.append(V("procstat-samples", f"{name}: samples reported {d.get('samples')}, taken {len(xs)}"))
+            for key, mul in (("cpu_percent", 1), ("rss", 10)):
+                ys = [x * mul for x in xs]
+                want = dict(minimum=min(ys), maximum=max(ys), average=sum(ys) / len(ys))
+                for k, wv in want.items():
+                    gv = d.get(k, {}).get(key)
+                    if gv is None or abs(gv - wv) > 1e-9:
+                        res.append(V(f"procstat-{k}", f"{name} {key} samples {ys} (present in {len(xs)} of {n} ticks): {k} reported {gv}, true {wv}"))
+        return res
+
+    def kind(self, c):
+        return f"ticks={c[0]}"
+
+    def nontrivial(self, c):
+        return c[0] > 1
